@@ -116,7 +116,9 @@ def genJson : Json :=
               ("pruneParseFlags", Json.arr (GqlgenVerif.Gen.PruneFacts.parseFlags.map Json.str).toArray),
               ("pruneSkipResolvedBase", GqlgenVerif.Gen.PruneFacts.skipResolvedBase),
               ("pruneDropsUsed", GqlgenVerif.Gen.PruneFacts.dropsUsed),
-              ("pruneNeverUnused", Json.arr (GqlgenVerif.Gen.PruneFacts.neverUnused.map Json.str).toArray)]
+              ("pruneNeverUnused", Json.arr (GqlgenVerif.Gen.PruneFacts.neverUnused.map Json.str).toArray),
+              ("reserveCollisionKey", toString (repr GqlgenVerif.Gen.ReserveFacts.collisionKey)),
+              ("rewriterCacheForm", toString (repr GqlgenVerif.Gen.ReserveFacts.cacheForm))]
 
 def step (line : String) : String :=
   let (op, rest) := match line.splitOn " " with
